@@ -126,6 +126,14 @@ def _old_section(name):
     return None
 
 
+def old_flag(name):
+    """value of a boolean definition in the Gen/Tables.v of the last successful regeneration"""
+    if not os.path.exists(OUT):
+        return None
+    m = re.search(r"^Definition %s : bool := (true|false)\.$" % re.escape(name), open(OUT).read(), re.M)
+    return None if m is None else m.group(1) == "true"
+
+
 def gen():
     """every section is regenerated on its own; a section whose source forms can no longer be located keeps the text of the last
     successful regeneration and is reported in FAILED (the properties that use it then rest on the correspondence run alone)"""
@@ -133,6 +141,7 @@ def gen():
     global _CONSTS
     _CONSTS = None
     FAILED.clear()
+    del translate_tables.UNLOCATED[:]
     out = []
     out.append("(* GENERATED by tools/translate.py from /repo -- do not edit. *)")
     out.append("From Coq Require Import List NArith.")
